@@ -358,7 +358,7 @@ def rule_R4(body, log):
 LOOP_KW = ('while', 'for', 'loop')
 
 
-def rule_R10(body, log):
+def rule_R10(body, log, lv_types=None):
     """R10 loop-value: a `loop { .. break <expr> .. }` used as an expression becomes
     `{ let __lvN; loop { .. { __lvN = <expr>; break; } .. } __lvN }` (deferred initialisation; rustc's definite-assignment
     analysis accepts it exactly because every exit of the loop is one of those breaks). Verus has no `break <value>`."""
@@ -414,7 +414,8 @@ def rule_R10(body, log):
             break
         i, bo, bc, brs = target
         var = '__lv%d' % n_done
-        edits = [(toks[i][2], toks[i][2], '{ let %s; ' % var), (toks[bc][3], toks[bc][3], ' %s }' % var)]
+        ann = (': ' + lv_types[n_done]) if (lv_types and n_done in lv_types) else ''
+        edits = [(toks[i][2], toks[i][2], '{ let %s%s; ' % (var, ann)), (toks[bc][3], toks[bc][3], ' %s }' % var)]
         for (jb, e0, e1) in brs:
             edits.append((toks[jb][2], toks[e1][3], '{ %s = %s; break; }' % (var, body[toks[e0][2]:toks[e1][3]])))
         for s0, e0_, rep in sorted(edits, key=lambda x: x[0], reverse=True):
@@ -678,6 +679,7 @@ class Extract:
         self.lift = None
         self.lift_async = None
         self.lift_stmt = None
+        self.lv_types = {}
         self.lift_stmt_sig = None
         self.lift_stmt_tail = None
         self.lifted_contract = []
@@ -815,6 +817,9 @@ def parse_template(path):
             elif key.startswith('lift-async '):
                 m = re.match(r'lift-async (\d+) as (.*)$', d)
                 cur.lift_async = (int(m.group(1)), m.group(2))
+            elif key.startswith('lv-type '):
+                # type annotation for the result variable __lvK introduced by R10 (needed when a loop `ensures` names it before inference)
+                cur.lv_types[int(key[len('lv-type '):])] = val
             elif key == 'lift-stmt':
                 # R6c: the block statement (for/while/loop/if .. { }) that starts at the unique occurrence of this literal
                 cur.lift_stmt = val
@@ -911,7 +916,7 @@ def render_extract(ex, vac=False, strip_proof=False):
     if 'R11' in ex.rules:
         body = rule_R11(body, log)
     if 'R10' in ex.rules:
-        body = rule_R10(body, log)
+        body = rule_R10(body, log, getattr(ex, 'lv_types', None))
     if len(ex.maps) > 3:
         raise Undecided('R8: more than three expression maps requested')
     for a, b, why in ex.maps:
